@@ -330,13 +330,25 @@ def _is_await_switch(body, bb):
     return False
 
 
+def stitch_buffer_next(sn):
+    """The `next()` that takes an entry out of the hunk buffered in State::InBand (a Peekable, a vec::IntoIter ...)."""
+    out = []
+    for e in sn.events:
+        if e.bb in sn.live and e.args and re.search(r"Iterator>?::next$", e.name):
+            l = flow.operand_local(e.args[0])
+            ty = sn.locals[l] if l is not None else ""
+            if "index::entry::IndexEntry" in ty and "IndexHunkIter" not in ty and re.search(r"IntoIter|Peekable|Iter<|Drain", ty):
+                out.append(e)
+    return out
+
+
 def stitch_drops_only_filtered(ck, w, rule_id):
     """In Stitch::next a buffered entry is either returned or rejected by exactly one of the two
     tests (outside the subtree / excluded): nothing else is dropped."""
     lib = w.lib
     sn = w.body("index::stitch::Stitch::next")
     o = ck.ob(rule_id, "Stitch::next: an entry read from the index is dropped only if is_prefix_of was false or exclude.matches was true - nothing else is dropped")
-    nx = [e for e in sn.events if e.bb in sn.live and e.name.endswith("Peekable<I> as std::iter::Iterator>::next")]
+    nx = stitch_buffer_next(sn)
     pre = events_of(lib, sn, "apath::Apath::is_prefix_of")
     exc = events_of(lib, sn, "excludes::Exclude::matches")
     rets = [bb for bb, j, s in rules.agg_sites(sn, "std::option::Option", "Some") if s["pl"]["l"] == 0]
@@ -351,10 +363,20 @@ def stitch_drops_only_filtered(ck, w, rule_id):
         if 1 in arms:
             some_targets.add(arms[1])
     reject = set()
-    for e in pre:
-        reject |= rules.bool_switch_edges(sn, e, False)
-    for e in exc:
-        reject |= rules.bool_switch_edges(sn, e, True)
+    for ps in rules.predicate_sites(lib, sn, "apath::Apath::is_prefix_of"):
+        reject |= ps.edges[False]
+    for ps in rules.predicate_sites(lib, sn, "excludes::Exclude::matches"):
+        reject |= ps.edges[True]
+    # a private bool helper that joins the two tests (`is_selected`): its false edge rejects if false implies one of them
+    for e in sn.events:
+        if e.bb not in sn.live or e.callee == rules.POLL:
+            continue
+        hb = lib.bodies.get(e.resolved or e.callee or "")
+        if hb is not None and hb is not sn and (hb.ret or "") == "bool" and hb.kind in ("fn", "assoc_fn"):
+            if rules.helper_implies_any(lib, hb, {"apath::Apath::is_prefix_of": False, "excludes::Exclude::matches": True}, False):
+                reject |= rules.bool_switch_edges(sn, e, False)
+            if rules.helper_implies_any(lib, hb, {"apath::Apath::is_prefix_of": False, "excludes::Exclude::matches": True}, True):
+                reject |= rules.bool_switch_edges(sn, e, True)
     # from "got an entry", with the reject edges and the return removed, the loop must not continue
     bad = False
     for t in some_targets:
@@ -618,7 +640,8 @@ def stitch_retain_idiom(w):
         installs = [bb for bb, j, st in sn.all_assigns() if st["pl"]["p"] and any(
             "buffered_entries" == sn.local_names.get(st["pl"]["l"]) for _ in [0])]
         if not installs:
-            installs = [bb for bb, j, st in sn.all_assigns() if st["pl"]["p"] == ["*"] and "Peekable" in (sn.locals[st["pl"]["l"]] or "")]
+            installs = [bb for bb, j, st in sn.all_assigns() if st["pl"]["p"] == ["*"] and
+                        re.search(r"Peekable|vec::IntoIter<index::entry::IndexEntry", sn.locals[st["pl"]["l"]] or "")]
         ok_ = bool(installs) and bool(srcs)
         for ib in installs:
             for s_ in srcs:
